@@ -169,13 +169,13 @@ Lemma raw_unregister_tm : forall s j, tmr s (raw_unregister s j).
 Proof.
   intros. unfold raw_unregister. apply tmr_bind; [apply fd_unregister_tm|]. intros s1. cbv zeta.
   pose proof (do_close_tm s1 (rw_rfd s1 j)) as A. set (s2 := do_close s1 (rw_rfd s1 j)) in *.
-  destruct (efd_raw s2 =? 0); [|tmfin].
+  destruct (raw_is_pipe s2 j); [|tmfin].
   pose proof (do_close_tm s2 (rw_wfd s2 j)) as B. tmfin.
 Qed.
 
 Lemma raw_post_tm : forall s j, tm s (raw_post s j).
 Proof.
-  intros. unfold raw_post. destruct (efd_raw s =? 0).
+  intros. unfold raw_post. destruct (raw_is_pipe s j).
   - destruct (k_write (kern s) (rw_wfd s j) 1 0). tmfin.
   - destruct (k_write (kern s) (rw_wfd s j) 8 1). tmfin.
 Qed.
